@@ -56,9 +56,13 @@ def cases(tier, seed):
                         continue
                     out.append({"kind": "system", "cls": cls, "n": n, "d": d, "idx": idx, "seed": seed, "tier": tier})
                     idx += 1
-    for n in (2, 3, 5) if tier == "quick" else (2, 3, 4, 5, 7, 9):
-        for c in (1e-6, 1e-3, 1e3, 1e6):
+    for n in (2, 3, 4, 5, 6) if tier == "quick" else (2, 3, 4, 5, 6, 7, 9, 11):
+        for c in (1e-9, 1e-6, 1e-3, 1e3, 1e6):
             out.append({"kind": "scaling", "cls": f"scaling:{c:g}", "n": n, "c": c, "idx": idx, "seed": seed})
+            idx += 1
+        # only the right-hand side is small / large (||b|| << tol, resp. >> 1): the relative residual must not care
+        for cb in (1e-8, 1e-4, 1e5):
+            out.append({"kind": "scaling", "cls": f"rhs_scaling:{cb:g}", "n": n, "c": 1.0, "cb": cb, "idx": idx, "seed": seed})
             idx += 1
     for n in (1, 2, 4) if tier == "quick" else (1, 2, 3, 4, 6, 8):
         out.append({"kind": "lu_failpoint", "cls": "lu_failpoint", "n": n, "idx": idx, "seed": seed})
@@ -345,13 +349,16 @@ def _scaling(spec, ctx, R):
     b = refq.randq(rng, n, 1)
     kappa = embed.cond(A)
     floor = 1e3 * n * EPS * kappa
+    cb = spec.get("cb")
+    if cb is not None:
+        b = b * cb                       # the oracle solution scales with it; c stays 1
     ctx.distinct("scaling", A, b, c)
     xo = embed.solve(A, b)
     for tol in (1e-6, 1e-10):
         for prec in (None, "left_lu"):
             for sp in (False, True):
                 site = f"solve[{prec or 'none'}{',sparse' if sp else ''}]"
-                tags = [f"scale={c:g}"]
+                tags = [f"scale={c:g}"] + ([f"rhs_scale={cb:g}"] if cb is not None else [])
                 try:
                     x1, i1 = solve(R, A, b, tol=tol, prec=prec, sparse=sp)
                     xc, ic = solve(R, c * A, c * b, tol=tol, prec=prec, sparse=sp)
